@@ -2,8 +2,11 @@ import KG.Base.Json
 import KG.Spec.Strategy
 import KG.Gen.C20
 /-!
-Driver entry points for C20. Field groups travel as hex strings (the harness' canonical rendering of the Go
-value: `DeepEqual`-faithful for `C20.op`, API rendering for `C20.judge`); generation as a JSON integer.
+Driver entry points for C20. Field groups travel as hex strings (the harness' canonical renderings of the Go
+value); generation as a JSON integer. For `C20.op` spec and annotations travel twice: `spec`/`annotations` is
+the `DeepEqual`-faithful rendering (the value itself: nil and empty differ), `specSem`/`annotationsSem` the
+rendering under which `apiequality.Semantic.DeepEqual` compares (the model's `Sem`). `C20.judge` gets every
+group in the API's view.
 
 * `C20.op {op:"create"|"main"|"status", reg:{hasMeta,hasSpec,hasStatus,subStatus,optSubStatus}, metaValid,
   zero, stored: obj|null, submitted: obj}` → `{rej, out, created}`: one API request against the stored state
@@ -15,16 +18,29 @@ value: `DeepEqual`-faithful for `C20.op`, API rendering for `C20.judge`); genera
 namespace KG.Driver.C20
 open Lean KG KG.Model.Strategy KG.Spec.Strategy
 
-abbrev O := Obj Str Str Unit Str Str
+/-- a decoded value together with its semantic rendering -/
+abbrev V := Str × Str
+abbrev O := Obj Str V Unit V Str
+/-- an object in the API's view (the judge's input) -/
+abbrev OV := Obj Str Str Unit Str Str
+
+def sem : Sem V V Str Str := { annotations := (·.2), spec := (·.2) }
 
 def decodeObj (j : Json) : Except String O := do
+  pure { labels := ← J.getHex j "labels",
+         annotations := (← J.getHex j "annotations", ← J.getHex j "annotationsSem"),
+         generation := ← J.getInt j "generation", otherMeta := (),
+         spec := (← J.getHex j "spec", ← J.getHex j "specSem"), status := ← J.getHex j "status" }
+
+def encodeObj (o : O) : Json :=
+  J.obj [("labels", J.hex o.labels), ("annotations", J.hex o.annotations.1), ("annotationsSem", J.hex o.annotations.2),
+         ("generation", J.int o.generation), ("spec", J.hex o.spec.1), ("specSem", J.hex o.spec.2),
+         ("status", J.hex o.status)]
+
+def decodeView (j : Json) : Except String OV := do
   pure { labels := ← J.getHex j "labels", annotations := ← J.getHex j "annotations",
          generation := ← J.getInt j "generation", otherMeta := (),
          spec := ← J.getHex j "spec", status := ← J.getHex j "status" }
-
-def encodeObj (o : O) : Json :=
-  J.obj [("labels", J.hex o.labels), ("annotations", J.hex o.annotations), ("generation", J.int o.generation),
-         ("spec", J.hex o.spec), ("status", J.hex o.status)]
 
 def decodeReg (j : Json) : Except String Reg := do
   pure { shape := { hasMeta := ← J.getBool j "hasMeta", hasSpec := ← J.getBool j "hasSpec", hasStatus := ← J.getBool j "hasStatus" },
@@ -45,7 +61,7 @@ def doOp (a : Json) : Except String Json := do
   let valid ← J.getBool a "metaValid"
   let zero ← J.getHex a "zero"
   let sub ← decodeObj (← J.getObj a "submitted")
-  let mr : MetaRules Str Str Unit Str Str :=
+  let mr : MetaRules Str V Unit V Str :=
     { fixCreate := id, fixUpdate := fun n _ => n, validCreate := fun _ => valid, validUpdate := fun _ _ => valid }
   let stored ← match J.optObj a "stored" with
     | some j => (decodeObj j).map some
@@ -53,8 +69,8 @@ def doOp (a : Json) : Except String Json := do
   match op, stored with
   | "create", none => pure (answer true (beforeCreate r mr zero sub))
   | "create", some _ => throw "create against an existing object is AlreadyExists; the harness does not send it"
-  | "main", some old => pure (answer false (beforeUpdate r .main mr sub old))
-  | "status", some old => pure (answer false (beforeUpdate r .status mr sub old))
+  | "main", some old => pure (answer false (beforeUpdate sem r .main mr sub old))
+  | "status", some old => pure (answer false (beforeUpdate sem r .status mr sub old))
   | "main", none => pure (answer true (beforeCreate r mr zero sub))
   | "status", none =>
       -- apiStep: create-on-update through the status endpoint, when it is served
@@ -65,16 +81,16 @@ def doJudge (a : Json) : Except String Json := do
   let op ← J.getStr a "op"
   let served ← J.getBool a "served"
   let zero ← J.getHex a "zero"
-  let out ← decodeObj (← J.getObj a "out")
+  let out ← decodeView (← J.getObj a "out")
   let names (l : List Clause) : Json := Json.arr (l.map fun c => Json.str c.name).toArray
   match op with
   | "create" =>
       pure <| J.obj [("violations", names (judgeCreate served zero out)), ("statusAnnotationsOnly", J.bool false)]
   | "main" => do
-      let stored ← decodeObj (← J.getObj a "stored")
+      let stored ← decodeView (← J.getObj a "stored")
       pure <| J.obj [("violations", names (judgeMainUpdate served stored out)), ("statusAnnotationsOnly", J.bool false)]
   | "status" => do
-      let stored ← decodeObj (← J.getObj a "stored")
+      let stored ← decodeView (← J.getObj a "stored")
       pure <| J.obj [("violations", names (judgeStatusUpdate stored out)),
                      ("statusAnnotationsOnly", J.bool (statusAnnotationsOnly stored out))]
   | _ => throw s!"unknown op {op}"
